@@ -204,7 +204,7 @@ def Index.merge (idx idx2 : Index) : Out Index :=
     (mergeMap packs idx2.packs packlen .tree idx2.tree idx.tree).bind fun t =>
       .ok { idx with packs := packs, data := d, tree := t, ids := idx.ids ++ idx2.ids }
 
-/-! ## MasterIndex (`pendingBlobs` is cleared by every load and not modelled; `idx` is never empty
+/-! ## MasterIndex (`idx` is never empty
    after `NewMasterIndex`, so it is a first element plus the rest) -/
 
 structure MasterIndex where
@@ -212,12 +212,15 @@ structure MasterIndex where
   first : Index
   /-- `idx[1:]` -/
   rest : List Index
+  /-- `pendingBlobs`: blobs an uploader announced with `AddPending` whose pack is not stored yet
+      (Go map: association list, first match counts) -/
+  pending : List (Handle × Nat) := []
 deriving Repr, Inhabited
 
 def MasterIndex.idx (mi : MasterIndex) : List Index := mi.first :: mi.rest
 
 /-- `clear`: one empty final index to merge into -/
-def MasterIndex.new : MasterIndex := ⟨{ Index.new with final := true }, []⟩
+def MasterIndex.new : MasterIndex := ⟨{ Index.new with final := true }, [], []⟩
 
 def lookupAll (h : Handle) : List Index → Out (List PackedBlob)
   | [] => .ok []
@@ -226,11 +229,23 @@ def lookupAll (h : Handle) : List Index → Out (List PackedBlob)
 /-- `MasterIndex.Lookup` -/
 def MasterIndex.lookup (mi : MasterIndex) (h : Handle) : Out (List PackedBlob) := lookupAll h mi.idx
 
-/-- `MasterIndex.LookupSize`: the first index that has the blob answers (from one of its entries) -/
+def pendingSize (p : List (Handle × Nat)) (h : Handle) : Option Nat := (p.find? fun x => x.1 == h).map (·.2)
+
+/-- `MasterIndex.LookupSize`: a pending blob answers with its announced size, else the first index
+    that has the blob answers (from one of its entries) -/
 def MasterIndex.lookupSizeCandidates (mi : MasterIndex) (h : Handle) : List Nat :=
-  match mi.idx.find? (fun i => i.has h) with
-  | some i => i.lookupSizeCandidates h
-  | none => []
+  match pendingSize mi.pending h with
+  | some n => [n]
+  | none =>
+    match mi.idx.find? (fun i => i.has h) with
+    | some i => i.lookupSizeCandidates h
+    | none => []
+
+/-- `MasterIndex.AddPending`: refused when the blob is pending or in some index -/
+def MasterIndex.addPending (mi : MasterIndex) (h : Handle) (size : Nat) : MasterIndex × Bool :=
+  if (pendingSize mi.pending h).isSome then (mi, false)
+  else if mi.idx.any (fun i => i.has h) then (mi, false)
+  else ({ mi with pending := mi.pending ++ [(h, size)] }, true)
 
 def valuesAll : List Index → Out (List PackedBlob)
   | [] => .ok []
@@ -251,13 +266,15 @@ def mergeLoop : List Index → Index → List Index → Out (Index × List Index
 
 /-- `MergeFinalIndexes` (the `Preallocate` calls only size the hash tables) -/
 def MasterIndex.mergeFinalIndexes (mi : MasterIndex) : Out MasterIndex :=
-  (mergeLoop mi.rest mi.first []).bind fun (first, keep) => .ok ⟨first, keep⟩
+  (mergeLoop mi.rest mi.first []).bind fun (first, keep) => .ok { mi with first := first, rest := keep }
 
 /-- `prepareIncrementalLoad`: the ids already merged into `idx[0]`, or a cleared index when one of
     them is no longer listed -/
 def MasterIndex.prepareIncrementalLoad (mi : MasterIndex) (listed : List ID) : Out (MasterIndex × List ID) :=
   -- the first index is always final so this can't actually fail
   if !mi.first.final then .panic "internal error - failed to get index IDs" else
+  -- `clearPendingBlobs()`: a reload must give the same result as a full load into a new MasterIndex
+  let mi := { mi with pending := [] }
   let loadedIDs := mi.first.ids
   -- drop indexes left behind by a Load that failed before merging them (fix/C08-stale-index-after-aborted-load)
   let mi := { mi with rest := mi.rest.filter fun i => !i.final || i.ids.isEmpty }
